@@ -5,7 +5,9 @@
 (*   Write : k acc attr range w -> fail, status, cls (Good / Bad)             *)
 (*   Read  : k acc attr range   -> fail, status, cls, value                   *)
 (*   both carry before / after = the value a Read of the whole Value          *)
-(*   attribute returned right before / right after the call.                 *)
+(*   attribute returned right before / right after the call; a Write of Value *)
+(*   with an index range also rcls / rvalue = the result of a Read of the     *)
+(*   same index range right after it. rk / lo / hi = meaning of the range.    *)
 (* Where the statement does not say whether a write has to be accepted (a     *)
 (* numeric conversion, a scalar for an array, an empty value ...) both        *)
 (* outcomes pass; what is required in every case: a status and no panic,      *)
@@ -24,16 +26,7 @@ BytePair(t1, a1, t2, a2) == (t1 = "ByteString" /\ ~a1 /\ t2 = "Byte" /\ a2) \/ (
 \* the value can under no reading of the statement be written to a variable of kind k
 Incompatible(k, w) == Fam(w.t) # "none" /\ Fam(w.t) # Fam(DTof(k)) /\ ~BytePair(w.t, w.a, DTof(k), ArrKind(k))
 
-PRange(r) == CASE r = "" -> [k |-> "none", lo |-> 0, hi |-> 0]
-               [] r = "0" -> [k |-> "one", lo |-> 0, hi |-> 0]
-               [] r = "1" -> [k |-> "one", lo |-> 1, hi |-> 1]
-               [] r = "3" -> [k |-> "one", lo |-> 3, hi |-> 3]
-               [] r = "4" -> [k |-> "one", lo |-> 4, hi |-> 4]
-               [] r = "1:2" -> [k |-> "one", lo |-> 1, hi |-> 2]
-               [] r = "0:9" -> [k |-> "one", lo |-> 0, hi |-> 9]
-               [] r = "3:5" -> [k |-> "one", lo |-> 3, hi |-> 5]
-               [] r = "1,2" -> [k |-> "multi", lo |-> 0, hi |-> 0]
-               [] OTHER -> [k |-> "bad", lo |-> 0, hi |-> 0]
+PRange(e) == [k |-> e.rk, lo |-> e.lo, hi |-> e.hi]      \* the meaning of the index range string that was sent (an input of the case)
 PMin(a, b) == IF a < b THEN a ELSE b
 Sliceable(v) == v.a \/ v.t \in {"String", "ByteString"}
 
@@ -50,8 +43,13 @@ RangeWritten(b, a, s, w) ==
        /\ \A j \in 1..Len(b.v) : (j - 1 < s.lo \/ j - 1 > s.hi) => a.v[j] = b.v[j]
        /\ (Len(w.v) = s.hi - s.lo + 1 /\ s.hi < Len(b.v)) => SubSeq(a.v, s.lo + 1, s.hi + 1) = w.v
 
+\* the Read of the same range after a Good index range write
+RangeReadBack(rcls, rv, w) ==
+  LET n == PMin(Len(rv.v), Len(w.v))
+  IN rcls = "Good" /\ n >= 1 /\ SubSeq(rv.v, 1, n) = SubSeq(w.v, 1, n)
+
 WriteViol(e) ==
-  LET s == PRange(e.range)
+  LET s == PRange(e)
       good == e.cls = "Good"
   IN (IF good /\ e.acc # "rw" THEN {"good-write-without-user-write-access"} ELSE {})
      \cup (IF good /\ e.attr = "Value" /\ Incompatible(e.k, e.w) THEN {"good-write-of-a-value-of-another-type"} ELSE {})
@@ -60,9 +58,12 @@ WriteViol(e) ==
            THEN {"good-write-not-observed-by-read"} ELSE {})
      \cup (IF good /\ e.attr = "Value" /\ s.k = "one" /\ ~RangeWritten(e.before, e.after, s, e.w)
            THEN {"good-index-range-write-not-observed-by-read"} ELSE {})
+     \* ... and by a Read of the same index range: it succeeds and returns the written elements (as many as both have)
+     \cup (IF good /\ e.attr = "Value" /\ s.k = "one" /\ e.w.t \notin {"None", "Empty"} /\ ~RangeReadBack(e.rcls, e.rvalue, e.w)
+           THEN {"good-index-range-write-not-observed-by-read-of-the-same-range"} ELSE {})
 
 ReadViol(e) ==
-  LET s == PRange(e.range)
+  LET s == PRange(e)
       good == e.cls = "Good"
       b == e.before
       n == Len(b.v)
